@@ -199,10 +199,11 @@ func NewExec(cfg M) (*Exec, error) {
 			wire.Statements(func() wire.StatementCache { return &recStatements{x: x, inner: wire.DefaultStatementCacheFn()} }),
 			wire.Portals(func() wire.PortalCache { return &recPortals{x: x, inner: wire.DefaultPortalCacheFn()} }))
 	}
-	if I(cfg, "_ext") == 1 {
-		// a registered type extension: every connection still gets a type map of its own
+	for k := 0; k < I(cfg, "_ext"); k++ {
+		// registered type extensions (any number of them): every connection still gets a type map of its own
+		k := k
 		opts = append(opts, wire.ExtendTypes(func(m *pgtype.Map) {
-			m.RegisterType(&pgtype.Type{Name: "verif_ext", OID: 99001, Codec: pgtype.TextCodec{}})
+			m.RegisterType(&pgtype.Type{Name: fmt.Sprintf("verif_ext%d", k), OID: uint32(99001 + k), Codec: pgtype.TextCodec{}})
 		}))
 	}
 	emptyViaField := false
